@@ -253,6 +253,7 @@ path:                 /* at this point, p must point to an absolute path */
   }
 
   /* Uri_Query */
+  p = q;
   if (len && *p == '?') {
     ++p;
     --len;
